@@ -298,6 +298,10 @@ Definition xfer_okb (hs : list hint) (mtu xid : N) (data : bytes) : bool :=
   && (xid <? 4294967296) && (blen data <? 4294967296) && wf_bytesb data
   && (mtu <? LEN_MOD + 4).
 
+(** The same for the hint list the code uses. *)
+Definition send_okb (mtu xid : N) (data : bytes) : bool :=
+  xfer_okb (xfer_hints (blen data)) mtu xid data.
+
 (** ** Receiver: [RxTransfer], [Agent._recv_msg] *)
 
 (** [got_idx] and [data] together: (index, octets) sorted by index, indices
